@@ -9,7 +9,7 @@
  * rfbProcessEvents (one rfbSendFramebufferUpdate per client with something pending).
  *
  * ops (one per line)                                        observation
- *   screen w h bpp                                          ok
+ *   screen w h bpp   (bpp = bytes per pixel: 1, 2, 3, 4)    ok
  *   draw x y w h seed      (paint + rfbMarkRectAsModified)  ok
  *   cursor none                                             ok
  *   cursor x  w h xh yh <src> <mask> fr fg fb br bg bb      ok   (bytes as given)
@@ -18,6 +18,7 @@
  *   cursor rich  w h xh yh <pix> <mask> fr fg fb br bg bb   ok
  *   cursor alpha w h xh yh <pix> <alpha> premult            ok   (mask by rfbMakeMaskFromAlphaSource)
  *   client id raw|x|rich [f8|f8b|f16|f16b|f32|f32b]         ok   (SetPixelFormat; default: server's format)
+ *   setenc id raw|x|rich    (SetEncodings again: switch)    ok
  *   ptr id x y buttons                                      pos=X,Y pc=<id|-> moved=<id>:<b>,...
  *   req id incr x y w h                                     ok
  *   failnext id k       (k-th write from now on fails)      ok
@@ -49,17 +50,19 @@ typedef struct { const char *name; int bytes, depth, rm, gm, bm, rs, gs, bs; } v
 static const vfmt FMTS[] = {
   { "f8", 1, 8, 7, 7, 3, 0, 3, 6 }, { "f8b", 1, 8, 7, 7, 3, 5, 2, 0 },
   { "f16", 2, 16, 31, 31, 31, 0, 5, 10 }, { "f16b", 2, 16, 31, 63, 31, 11, 5, 0 },
-  { "f32", 4, 32, 255, 255, 255, 0, 8, 16 }, { "f32b", 4, 24, 255, 255, 255, 16, 8, 0 } };
+  { "f32", 4, 32, 255, 255, 255, 0, 8, 16 }, { "f32b", 4, 24, 255, 255, 255, 16, 8, 0 },
+  { "f24", 3, 24, 255, 255, 255, 0, 8, 16 } };
 static vfmt cfmt[MAXC]; static int CB[MAXC], xl[MAXC];
 static rfbScreenInfoPtr scr;
 static int W, H, BPP;
 
+#define CURMAX 66000     /* largest bitmap / pixel array of a script's cursor, bytes */
 /* the cursor as the SCRIPT gave it (for the direct oracle) */
 static struct {
   int kind;            /* 0 none 1 x 2 xs 3 xm 4 rich 5 alpha */
   int w, h, xh, yh;
-  unsigned char src[64 * 64], mask[64 * 64];
-  unsigned char pix[64 * 64 * 4], alpha[64 * 64];
+  unsigned char src[CURMAX], mask[CURMAX];
+  unsigned char pix[CURMAX], alpha[CURMAX];
   int fr, fg, fb, br, bg, bb, premult;
 } cur;
 
@@ -86,7 +89,7 @@ static uint64_t fbhash(void) { return vh_fnv((unsigned char *)scr->frameBuffer, 
 static uint32_t pixval(uint32_t x, uint32_t y, uint32_t seed) {
   uint32_t v = (x * 73u + y * 151u + seed * 199u + x * y * 7u) * 2654435761u;
   v ^= v >> 15;
-  if (BPP == 1) v &= 0xffu; else if (BPP == 2) v &= 0xffffu;
+  if (BPP == 1) v &= 0xffu; else if (BPP == 2) v &= 0xffffu; else if (BPP == 3) v &= 0xffffffu;
   return v;
 }
 static uint32_t getpx(const unsigned char *base, int x, int y) {
@@ -143,7 +146,7 @@ static uint32_t colour(int r, int g, int b) {     /* 16-bit rgb -> server pixel,
          ((uint32_t)((uint64_t)f->blueMax * b / 0xffff) << f->blueShift);
 }
 /* what pixel (x,y) of the client's picture must show when the pointer is at (px,py).
-   returns 0: the reference leaves the value open (alpha strictly between 0 and 255)
+   returns 0: the reference leaves the value open (premultiplied alpha source overflowing a channel)
            1: compare (got ^ *want) & *cmpmask
            2: X-cursor colour: every channel of got must be the 16-bit colour rgb[] scaled to the
               channel's maximum, rounded down or up */
@@ -155,9 +158,19 @@ static int reference(int x, int y, int px, int py, uint32_t *want, uint32_t *cmp
   if (cur.kind == 5) {
     int a = cur.alpha[v * cur.w + u]; uint32_t p = 0;
     if (a == 0) return 1;
-    if (a != 255) return 0;
     memcpy(&p, cur.pix + ((size_t)v * cur.w + u) * BPP, BPP);
-    *want = p; *cmpmask = fmtmask(); return 1;
+    { /* the blend, channel by channel, as the property states it (Props/C15.lean alpha_blend_spec):
+         a*src/255 + (255-a)*dst/255, premultiplied sources: src + (255-a)*dst/255 */
+      rfbPixelFormat *f = &scr->serverFormat; uint32_t out = 0; int k;
+      int mx[3] = { f->redMax, f->greenMax, f->blueMax }, sh[3] = { f->redShift, f->greenShift, f->blueShift };
+      for (k = 0; k < 3; k++) {
+        uint32_t s = (p >> sh[k]) & mx[k], d = (under >> sh[k]) & mx[k];
+        uint32_t c = (cur.premult ? s : (uint32_t)a * s / 255) + (uint32_t)(255 - a) * d / 255;
+        if (c > (uint32_t)mx[k]) return 0;          /* premultiplied source overflowing a channel: left open */
+        out |= c << sh[k];
+      }
+      *want = out; *cmpmask = fmtmask(); return 1;
+    }
   }
   {
     const unsigned char *m = (cur.kind == 3) ? scr->cursor->mask : cur.mask;  /* xm: library-derived mask */
@@ -179,7 +192,7 @@ static int chan_ok(uint32_t got, int max, int shift, int c16) {
 static uint32_t colour_unscaled(int r, int g, int b) {
   rfbPixelFormat *f = &scr->serverFormat; uint32_t v;
   v = ((uint32_t)r << f->redShift) | ((uint32_t)g << f->greenShift) | ((uint32_t)b << f->blueShift);
-  if (BPP == 1) v &= 0xffu; else if (BPP == 2) v &= 0xffffu;
+  if (BPP == 1) v &= 0xffu; else if (BPP == 2) v &= 0xffffu; else if (BPP == 3) v &= 0xffffffu;
   return v;
 }
 
@@ -296,14 +309,26 @@ static char *bits2str(const unsigned char *bits, int w, int h) {
   s[w * h] = 0; return s;
 }
 
-static int op_cursor(char **tok, int n) {
-  rfbCursorPtr c = NULL; long l1, l2; int rb, w, h;
+static int op_cursor_(char **tok, int n);
+static int op_cursor(char **tok, int n) {       /* a rejected op leaves the oracle's cursor untouched */
+  static char saved[sizeof cur]; int r;
+  memcpy(saved, &cur, sizeof cur);
+  r = op_cursor_(tok, n);
+  if (r != 0) memcpy(&cur, saved, sizeof cur);
+  return r;
+}
+static int op_cursor_(char **tok, int n) {
+  rfbCursorPtr c = NULL; long l1, l2; int rb, w, h, haspix;
   memset(&cur, 0, sizeof cur);
   if (n == 2 && !strcmp(tok[1], "none")) { rfbSetCursor(scr, NULL); return 0; }
   if (n < 7) return -1;
   w = cur.w = atoi(tok[2]); h = cur.h = atoi(tok[3]); cur.xh = atoi(tok[4]); cur.yh = atoi(tok[5]);
-  if (w < 1 || h < 1 || w > 64 || h > 64) return -1;
+  /* sizes: 0 is allowed (nothing to paint), up to 1200 a side as long as the arrays stay <= CURMAX */
+  if (w < 0 || h < 0 || w > 1200 || h > 1200) return -1;
   rb = (w + 7) / 8;
+  haspix = !strcmp(tok[1], "rich") || !strcmp(tok[1], "alpha");
+  if ((long)rb * h > CURMAX || (haspix && (long)w * h * BPP > CURMAX)) return -1;
+  if ((w == 0 || h == 0) && strcmp(tok[1], "x")) return -1;
   cur.fr = cur.fg = cur.fb = 0xffff;
   if (!strcmp(tok[1], "x") && n == 14) {
     cur.kind = 1;
@@ -364,11 +389,24 @@ static int op_cursor(char **tok, int n) {
 /* ---------------------------------------------------------------- clients */
 static void put32(unsigned char *p, uint32_t v) { p[0] = v >> 24; p[1] = v >> 16; p[2] = v >> 8; p[3] = v; }
 
+static int kind_of(const char *k) {
+  if (!strcmp(k, "raw")) return 0; if (!strcmp(k, "x")) return 1; if (!strcmp(k, "rich")) return 2; return -1;
+}
+static void send_encodings(int id) {
+  unsigned char b[64]; int ne = 0, i; int32_t encs[4];
+  encs[ne++] = rfbEncodingRaw;
+  if (kind[id] == 1) { encs[ne++] = rfbEncodingXCursor; encs[ne++] = rfbEncodingPointerPos; }
+  if (kind[id] == 2) { encs[ne++] = rfbEncodingRichCursor; encs[ne++] = rfbEncodingPointerPos; }
+  b[0] = rfbSetEncodings; b[1] = 0; b[2] = 0; b[3] = (unsigned char)ne;
+  for (i = 0; i < ne; i++) put32(b + 4 + 4 * i, (uint32_t)encs[i]);
+  vh_send(&conns[id], b, 4 + 4 * ne);
+  rfbProcessClientMessage(conns[id].cl);
+}
+
 static int op_client(int id, const char *k, const char *fname) {
-  unsigned char b[64]; vh_conn *c = &conns[id]; int ne = 0; int32_t encs[4]; const vfmt *cf = NULL;
-  if (id < 0 || id >= MAXC || used[id] || !scr) return -1;
-  if (!strcmp(k, "raw")) kind[id] = 0; else if (!strcmp(k, "x")) kind[id] = 1;
-  else if (!strcmp(k, "rich")) kind[id] = 2; else return -1;
+  unsigned char b[64]; vh_conn *c = &conns[id]; const vfmt *cf = NULL;
+  if (id < 0 || id >= MAXC || used[id] || !scr || kind_of(k) < 0) return -1;
+  kind[id] = kind_of(k);
   if (fname) { size_t i; for (i = 0; i < sizeof FMTS / sizeof FMTS[0]; i++) if (!strcmp(fname, FMTS[i].name)) cf = &FMTS[i]; if (!cf) return -1; }
   used[id] = 1;
   if (vh_connect_pre(scr, c, "RFB 003.008\n", 12) < 0 || !c->cl) return -1;
@@ -376,13 +414,7 @@ static int op_client(int id, const char *k, const char *fname) {
   b[0] = 1; vh_send(c, b, 1); rfbProcessClientMessage(c->cl);   /* security None */
   b[0] = 1; vh_send(c, b, 1); rfbProcessClientMessage(c->cl);   /* ClientInit shared */
   if (!c->cl || c->cl->state != RFB_NORMAL) return -1;
-  encs[ne++] = rfbEncodingRaw;
-  if (kind[id] == 1) { encs[ne++] = rfbEncodingXCursor; encs[ne++] = rfbEncodingPointerPos; }
-  if (kind[id] == 2) { encs[ne++] = rfbEncodingRichCursor; encs[ne++] = rfbEncodingPointerPos; }
-  b[0] = rfbSetEncodings; b[1] = 0; b[2] = 0; b[3] = (unsigned char)ne;
-  { int i; for (i = 0; i < ne; i++) put32(b + 4 + 4 * i, (uint32_t)encs[i]); }
-  vh_send(c, b, 4 + 4 * ne);
-  rfbProcessClientMessage(c->cl);
+  send_encodings(id);
   CB[id] = BPP; xl[id] = 0;
   if (cf) {                      /* SetPixelFormat: little-endian true colour */
     memset(b, 0, 20);
@@ -409,14 +441,23 @@ int main(void) {
     if (!strcmp(tok[0], "screen") && n == 4 && !scr) {
       int x, y;
       W = atoi(tok[1]); H = atoi(tok[2]); BPP = atoi(tok[3]);
-      if (W < 1 || H < 1 || W > 200 || H > 200 || (BPP != 1 && BPP != 2 && BPP != 4)) { puts("bad-op"); continue; }
+      if (W < 1 || H < 1 || W > 200 || H > 200 || (BPP != 1 && BPP != 2 && BPP != 3 && BPP != 4)) { puts("bad-op"); continue; }
       scr = vh_screen(W, H, BPP);
       if (!scr || scr->paddedWidthInBytes != W * BPP) { fprintf(stderr, "no screen\n"); return 2; }
       for (y = 0; y < H; y++) for (x = 0; x < W; x++) setpx((unsigned char *)scr->frameBuffer, x, y, pixval(x, y, 0));
       scr->maxRectsPerUpdate = 1 << 30;   /* no coarsening of the update region to its bounding box (C02 territory) */
       scr->displayHook = hook_display; scr->displayFinishedHook = hook_finished;
       rfbVerifPreEncodeHook = hook_pre;
-      rfbSetCursor(scr, NULL);          /* scripts install their own cursor; start without one */
+      /* until the script installs a cursor the library's built-in default cursor is in effect;
+         the oracle's description of it is read from the library's own record */
+      if (scr->cursor && scr->cursor->source && scr->cursor->mask && scr->cursor->width <= 64 && scr->cursor->height <= 64) {
+        rfbCursorPtr c = scr->cursor; int nb = ((c->width + 7) / 8) * c->height;
+        memset(&cur, 0, sizeof cur);
+        cur.kind = 1; cur.w = c->width; cur.h = c->height; cur.xh = c->xhot; cur.yh = c->yhot;
+        memcpy(cur.src, c->source, nb); memcpy(cur.mask, c->mask, nb);
+        cur.fr = c->foreRed; cur.fg = c->foreGreen; cur.fb = c->foreBlue;
+        cur.br = c->backRed; cur.bg = c->backGreen; cur.bb = c->backBlue;
+      }
       puts("ok");
     } else if (!scr) {
       puts("bad-op");
@@ -430,6 +471,12 @@ int main(void) {
       puts(op_cursor(tok, n) == 0 ? "ok" : "bad-op");
     } else if (!strcmp(tok[0], "client") && (n == 3 || n == 4)) {
       puts(op_client(atoi(tok[1]), tok[2], n == 4 ? tok[3] : NULL) == 0 ? "ok" : "bad-op");
+    } else if (!strcmp(tok[0], "setenc") && n == 3) {
+      int id = atoi(tok[1]);
+      if (!alive(id) || kind_of(tok[2]) < 0) { puts("bad-op"); continue; }
+      kind[id] = kind_of(tok[2]);
+      send_encodings(id);
+      puts("ok");
     } else if (!strcmp(tok[0], "ptr") && n == 5) {
       int id = atoi(tok[1]), x = atoi(tok[2]), y = atoi(tok[3]), m = atoi(tok[4]), i, first = 1; unsigned char b[6];
       if (!alive(id) || x < 0 || y < 0 || x > 65535 || y > 65535) { puts("bad-op"); continue; }
